@@ -9,7 +9,7 @@ import vlib, build, sqfsimg
 from vlib import VERIF, Evidence, Reporter, run_tlc, write_cfg, scratch, SEED, sh
 
 PID = "C16"
-CLS = {"p": b"a", "s": b" ", "t": b"\t", "q": b'"', "b": b"\\", "h": b"#"}
+CLS = {"p": b"a", "s": b" ", "t": b"\t", "q": b'"', "b": b"\\", "h": b"#", "w": b"\r"}
 REV = {v: k for k, v in CLS.items()}
 
 
@@ -20,7 +20,7 @@ def classes(s):
 def strings(maxlen, extra_plain=(b"z", b"\xc3\xa4")):
     out = []
     for n in range(1, maxlen + 1):
-        for t in itertools.product("psqtbh", repeat=n):
+        for t in itertools.product("psqtbhw", repeat=n):
             out.append(b"".join(CLS[c] for c in t))
     return out
 
@@ -112,8 +112,8 @@ def run(tier):
     tools = build.build("plain") + "/bin"
     cfg = work + "/d.cfg"
     MN, MX = (3, 2) if tier == "quick" else (4, 3)
-    chars = '{"p","s","t","q","b","h"}'
-    write_cfg(cfg, spec="Spec", constants={"MaxName": MN, "MaxExtra": MX, "QuoteOnTabAndBackslash": True, "QuoteExtra": True},
+    chars = '{"p","s","t","q","b","h","w"}'
+    write_cfg(cfg, spec="Spec", constants={"MaxName": MN, "MaxExtra": MX, "QuoteOnTabAndBackslash": True, "QuoteExtra": True, "QuoteOnOtherSpace": True},
               defs={"Chars": chars}, invariants=["RoundTrip"], deadlock=False)
     r = run_tlc("Describe", cfg, workers=16, timeout=1800)
     ev.tlc(r, "Describe names<=%d extras<=%d" % (MN, MX))
@@ -122,8 +122,9 @@ def run(tier):
         ev.write()
         return 2
     devres = {}
-    for name, q1, q2 in [("EscapeQuoteOnly+QuoteOnlyOnSpace(pre-fix printer)", False, True), ("TargetVerbatim(pre-fix printer)", True, False)]:
-        write_cfg(cfg, spec="Spec", constants={"MaxName": 2, "MaxExtra": 2, "QuoteOnTabAndBackslash": q1, "QuoteExtra": q2},
+    for name, q1, q2, q3 in [("EscapeQuoteOnly+QuoteOnlyOnSpace(pre-fix printer)", False, True, True), ("TargetVerbatim(pre-fix printer)", True, False, True),
+                             ("OtherWhiteSpaceUnquoted(pre-fix printer)", True, True, False)]:
+        write_cfg(cfg, spec="Spec", constants={"MaxName": 2, "MaxExtra": 2, "QuoteOnTabAndBackslash": q1, "QuoteExtra": q2, "QuoteOnOtherSpace": q3},
                   defs={"Chars": chars}, invariants=["RoundTrip"], deadlock=False)
         r = run_tlc("Describe", cfg, workers=4, timeout=600)
         ev.tlc(r, "dev " + name)
@@ -135,7 +136,7 @@ def run(tier):
         return 2
     # ---- R ---------------------------------------------------------------------------------------
     names = strings(2 if tier == "quick" else 3)
-    targets = strings(2) + [b"a/b c", b"../x\ty", b"/abs/\"q\"", b"t\\n", b"plain"]
+    targets = strings(2) + [b"a/b c", b"../x\ty", b"/abs/\"q\"", b"t\\n", b"plain", b"cr\r", b"\x0bvt\x0c", b"mid\rdle"]
     rng = random.Random(SEED)
     extra = []
     for _ in range(40 if tier == "quick" else 400):
